@@ -1,13 +1,16 @@
 package dxbc
 
 import (
+	"context"
 	"fmt"
 	"os"
 	"os/exec"
 	"path/filepath"
+	"math/rand"
 	"strings"
 	"sync"
 	"testing"
+	"time"
 
 	"github.com/gogpu/naga/dxil"
 )
@@ -50,6 +53,9 @@ func bitcodeLevel(rule string) bool {
 // own reader + verifier (llvm-dis, opt -passes=verify; modern LLVM still reads
 // 3.7 bitcode). Skipped when the tools are absent. Both directions must agree.
 func TestCrossCheckLLVM(t *testing.T) {
+	if os.Getenv("DXBC_XCHECK") == "" {
+		t.Skip("set DXBC_XCHECK=1 (takes ~25 s)")
+	}
 	dis, err1 := exec.LookPath("llvm-dis")
 	opt, err2 := exec.LookPath("opt")
 	if err1 != nil || err2 != nil {
@@ -113,4 +119,155 @@ func TestCrossCheckLLVM(t *testing.T) {
 		}
 	}
 	t.Logf("%d modules: %d rejected by both, %d only LLVM, %d only checker", len(jobs), both, onlyLLVM, onlyMine)
+}
+
+// TestFuzzVsLLVM (DXBC_FUZZ=n): mutate single record operands of good modules
+// and compare this checker's bitcode-level verdict with LLVM's reader+verifier.
+func TestFuzzVsLLVM(t *testing.T) {
+	if os.Getenv("DXBC_FUZZ") == "" {
+		t.Skip("set DXBC_FUZZ=<mutants per shader>")
+	}
+	n := 200
+	fmt.Sscanf(os.Getenv("DXBC_FUZZ"), "%d", &n)
+	dis, err1 := exec.LookPath("llvm-dis")
+	opt, err2 := exec.LookPath("opt")
+	if err1 != nil || err2 != nil {
+		t.Skip("llvm-dis / opt not installed")
+	}
+	dir := t.TempDir()
+	if d := os.Getenv("DXBC_FUZZ_DIR"); d != "" {
+		dir = d
+	}
+	srcs := []string{baseWGSL}
+	if extra := os.Getenv("DXBC_FUZZ_WGSL"); extra != "" {
+		b, err := os.ReadFile(extra)
+		if err != nil {
+			t.Fatal(err)
+		}
+		srcs = []string{string(b)}
+	}
+	rng := rand.New(rand.NewSource(1))
+	type job struct {
+		desc string
+		mine []string
+		path string
+		llvm string
+	}
+	var jobs []*job
+	for si, src := range srcs {
+		epi := 0
+		fmt.Sscanf(os.Getenv("DXBC_FUZZ_EP"), "%d", &epi)
+		b, _ := compileWGSL(t, src, epi, dxil.DefaultOptions())
+		bc := getBitcode(b)
+		for _, f0 := range Check(b, Expect{}).Findings {
+			if f0.Rule != "func.enum" {
+				t.Fatalf("base shader not clean: %s: %s", f0.Rule, f0.Detail)
+			}
+		}
+		for k := 0; k < n; k++ {
+			top := parseTree(bc)
+			mod := moduleOf(top)
+			// collect candidate records
+			type cand struct {
+				blk *bsBlock
+				rec *bsRecord
+			}
+			var cands []cand
+			var walk func(bl *bsBlock)
+			walk = func(bl *bsBlock) {
+				for _, it := range bl.Items {
+					if it.Blk != nil {
+						if it.Blk.ID != blkBlockInfo && it.Blk.ID != blkParamAttr && it.Blk.ID != blkParamAttrGroup {
+							walk(it.Blk)
+						}
+						continue
+					}
+					if len(it.Rec.Ops) > 0 && !(bl.ID == blkModule && it.Rec.Code < 7) && !(bl.ID == blkMetadata && (it.Rec.Code == 1 || it.Rec.Code == 4 || it.Rec.Code == 6)) && bl.ID != blkValueSymtab {
+						cands = append(cands, cand{bl, it.Rec})
+					}
+				}
+			}
+			walk(mod)
+			c := cands[rng.Intn(len(cands))]
+			oi := rng.Intn(len(c.rec.Ops))
+			old := c.rec.Ops[oi]
+			var nv uint64
+			switch rng.Intn(6) {
+			case 0:
+				nv = old + 1
+			case 1:
+				nv = old - 1
+			case 2:
+				nv = uint64(rng.Intn(60))
+			case 3:
+				nv = old + uint64(rng.Intn(40))
+			case 4:
+				nv = uint64(uint32(-int32(rng.Intn(30))))
+			default:
+				nv = old ^ 1
+			}
+			if nv == old {
+				continue
+			}
+			c.rec.Ops[oi] = nv
+			desc := fmt.Sprintf("src%d block %d code %d op%d: %d -> %d (ops now %v)", si, c.blk.ID, c.rec.Code, oi, old, nv, clip(c.rec.Ops))
+			nb := withBitcode(b, writeBitcode(top))
+			rep := Check(nb, Expect{})
+			j := &job{desc: desc, path: filepath.Join(dir, fmt.Sprintf("%d.bc", len(jobs)))}
+			_ = os.WriteFile(j.path, getBitcode(nb), 0o644)
+			for _, f := range rep.Findings {
+				if bitcodeLevel(f.Rule) {
+					j.mine = append(j.mine, f.Rule+": "+f.Detail)
+				}
+			}
+			jobs = append(jobs, j)
+		}
+	}
+	var wg sync.WaitGroup
+	sem := make(chan struct{}, 6)
+	for _, j := range jobs {
+		wg.Add(1)
+		go func(j *job) {
+			defer wg.Done()
+			sem <- struct{}{}
+			defer func() { <-sem }()
+			ctx, cancel := context.WithTimeout(context.Background(), 120*time.Second)
+			defer cancel()
+			o1, e1 := exec.CommandContext(ctx, "/bin/sh", "-c", "ulimit -v 4000000; exec "+dis+" "+j.path+" -o /dev/null").CombinedOutput()
+			o2, e2 := exec.CommandContext(ctx, "/bin/sh", "-c", "ulimit -v 4000000; exec "+opt+" -passes=verify "+j.path+" -o /dev/null").CombinedOutput()
+			var keep []string
+			if ctx.Err() != nil {
+				keep = append(keep, "TIMEOUT")
+			} else if (e1 != nil && len(o1) == 0) || (e2 != nil && len(o2) == 0) {
+				keep = append(keep, fmt.Sprintf("tool failed: %v %v", e1, e2))
+			}
+			for _, ln := range strings.Split(string(o1)+string(o2), "\n") {
+				if strings.TrimSpace(ln) == "" || strings.Contains(ln, "unrecognized architecture") {
+					continue
+				}
+				keep = append(keep, ln)
+			}
+			if len(keep) > 3 {
+				keep = keep[:3]
+			}
+			j.llvm = strings.Join(keep, " | ")
+		}(j)
+	}
+	wg.Wait()
+	both, none, onlyL, onlyM := 0, 0, 0, 0
+	for _, j := range jobs {
+		switch {
+		case j.llvm != "" && len(j.mine) > 0:
+			both++
+		case j.llvm != "":
+			onlyL++
+			t.Logf("ONLY-LLVM %s\n     llvm: %s", j.desc, j.llvm)
+		case len(j.mine) > 0:
+			onlyM++
+			t.Logf("ONLY-MINE %s\n     mine: %s", j.desc, j.mine[0])
+		default:
+			none++
+		}
+	}
+	t.Logf("%d mutants: both reject %d, both accept %d, only LLVM %d, only checker %d", len(jobs), both, none, onlyL, onlyM)
 }
